@@ -1,0 +1,96 @@
+// SPDX-License-Identifier: Apache-2.0 OR MIT
+
+//! Verification hooks: direct access to each compiled body-distance back end.
+//!
+//! Each x86 wrapper returns `None` when the back end is not compiled into this
+//! build or the CPU lacks the instruction set.
+
+#![allow(missing_docs, clippy::missing_docs_in_private_items, unused_variables)]
+
+pub fn pseudo32_sub_distance(x: u32, y: u32) -> u32 {
+    super::pseudo_simd_32::sub_distance(x, y)
+}
+pub fn pseudo32_12(a: &[u8; 12], b: &[u8; 12]) -> u32 {
+    super::pseudo_simd_32::distance_12(a, b)
+}
+pub fn pseudo32_32(a: &[u8; 32], b: &[u8; 32]) -> u32 {
+    super::pseudo_simd_32::distance_32(a, b)
+}
+pub fn pseudo32_64(a: &[u8; 64], b: &[u8; 64]) -> u32 {
+    super::pseudo_simd_32::distance_64(a, b)
+}
+pub fn pseudo64_12(a: &[u8; 12], b: &[u8; 12]) -> u32 {
+    super::pseudo_simd_64::distance_12(a, b)
+}
+pub fn pseudo64_32(a: &[u8; 32], b: &[u8; 32]) -> u32 {
+    super::pseudo_simd_64::distance_32(a, b)
+}
+pub fn pseudo64_64(a: &[u8; 64], b: &[u8; 64]) -> u32 {
+    super::pseudo_simd_64::distance_64(a, b)
+}
+pub fn dispatch_12(a: &[u8; 12], b: &[u8; 12]) -> u32 {
+    super::distance_12(a, b)
+}
+pub fn dispatch_32(a: &[u8; 32], b: &[u8; 32]) -> u32 {
+    super::distance_32(a, b)
+}
+pub fn dispatch_64(a: &[u8; 64], b: &[u8; 64]) -> u32 {
+    super::distance_64(a, b)
+}
+
+macro_rules! x86_backend {
+    ($name:ident, $module:ident, $func:ident, $size:literal, $feature:tt, [$($modcfg:tt)*]) => {
+        pub fn $name(a: &[u8; $size], b: &[u8; $size]) -> Option<u32> {
+            cfg_if::cfg_if! {
+                if #[cfg(all(
+                    feature = "simd-per-arch",
+                    feature = "opt-simd-body-comparison",
+                    any(target_arch = "x86", target_arch = "x86_64"),
+                    $($modcfg)*
+                ))] {
+                    cfg_if::cfg_if! {
+                        if #[cfg(feature = "detect-features")] {
+                            let available = std::arch::is_x86_feature_detected!($feature);
+                        } else {
+                            let available = cfg!(target_feature = $feature);
+                        }
+                    }
+                    if available {
+                        #[allow(unsafe_code)]
+                        let value = unsafe { super::$module::$func(a, b) };
+                        Some(value)
+                    } else {
+                        None
+                    }
+                } else {
+                    None
+                }
+            }
+        }
+    };
+}
+
+x86_backend!(sse2_32, x86_sse2, distance_32, 32, "sse2", [any(
+    feature = "detect-features",
+    all(not(target_feature = "avx2"), not(target_feature = "sse4.1"), target_feature = "sse2")
+)]);
+x86_backend!(sse2_64, x86_sse2, distance_64, 64, "sse2", [any(
+    feature = "detect-features",
+    all(not(target_feature = "avx2"), not(target_feature = "sse4.1"), target_feature = "sse2")
+)]);
+x86_backend!(sse4_1_32, x86_sse4_1, distance_32, 32, "sse4.1", [any(
+    feature = "detect-features",
+    all(not(target_feature = "avx2"), target_feature = "sse4.1")
+)]);
+x86_backend!(sse4_1_64, x86_sse4_1, distance_64, 64, "sse4.1", [any(
+    feature = "detect-features",
+    all(not(target_feature = "avx2"), target_feature = "sse4.1")
+)]);
+x86_backend!(avx2_32, x86_avx2, distance_32, 32, "avx2", [any(
+    feature = "detect-features",
+    target_feature = "avx2"
+)]);
+x86_backend!(avx2_64, x86_avx2, distance_64, 64, "avx2", [any(
+    feature = "detect-features",
+    target_feature = "avx2"
+)]);
